@@ -19,6 +19,7 @@ COMPOSITION_THEOREMS = [
     "Qmc.Kernel.cluster_kernel_reversible_consistent", "Qmc.Kernel.free_refresh_invariant",
     "Qmc.Kernel.timestep_invariant_with", "Qmc.Kernel.timestep_invariant", "Qmc.Kernel.timestep_invariant_hb",
     "Qmc.Kernel.timestep_rowSum", "Qmc.Kernel.ising_clusterSym",
+    "Qmc.Kernel.timestep_invariant_components", "Qmc.Kernel.timestep_invariant_components_hb", "Qmc.Kernel.ising_timestep_invariant",
 ]
 
 THEOREMS = [
